@@ -75,7 +75,8 @@ def check_receiver_groups(seeds=(0,)):
               ('opposite pair', [20.0, -160.0], [35.0, -35.0]),
               ('up and down plus oblique', [10.0, 10.0, 70.0], [90.0, -90.0, 0.0]),
               ('azimuth scan', list(np.arange(12) * 30.0 - 170.0), [0.0] * 12),
-              ('elevation scan', [25.0] * 7, list(np.arange(7) * 30.0 - 90.0))]
+              ('elevation scan', [25.0] * 7, list(np.arange(7) * 30.0 - 90.0)),
+              ('common azimuth of 22.5 degrees, whole-degree dips', [22.5] * 4, [0.0, 30.0, 60.0, -45.0])]
     for seed in seeds:
         grid, rng = mk_grid(seed)
         groups_ = groups + [('random', list(rng.uniform(-180, 180, 5)), list(rng.uniform(-90, 90, 5)))]
@@ -94,7 +95,12 @@ def check_receiver_groups(seeds=(0,)):
                 want = np.array(want)
                 tup = (pts[:, 0], pts[:, 1], pts[:, 2], az, el)
                 lst = [emg3d.RxElectricPoint((pts[j, 0], pts[j, 1], pts[j, 2], az[j], el[j])) for j in range(n)]
-                for form, rec in (('tuple of coordinate arrays', tup), ('list of Rx instances', lst)):
+                forms = [('tuple of coordinate arrays', tup), ('list of Rx instances', lst)]
+                if np.all(el == np.round(el)) and np.all(az == az[0]):
+                    # the same receivers with the forms get_receiver documents for its angles: one common azimuth as a scalar (here not a whole
+                    # number of degrees is possible), the elevations as an array of INTEGER dtype
+                    forms.append(('tuple with scalar azimuth and integer-typed elevation array', (pts[:, 0], pts[:, 1], pts[:, 2], float(az[0]), el.astype(int))))
+                for form, rec in forms:
                     cases += 1
                     got = np.ravel(np.asarray(fields.get_receiver(f, rec, method='linear')))
                     scale = max(1.0, np.abs(want).max())
@@ -241,11 +247,23 @@ def check_sources(tier='quick', seed=0):
         wires.append(np.array([[nx[1], ny[2], nz[1]], [nx[4], ny[2], nz[1]]]))
         wires.append(np.array([[nx[1], ny[1], nz[1]], [nx[1], ny[3], nz[3]], [nx[3], ny[3], nz[3]]]))
         wires.append(np.array([[nx[2] + 0.3, ny[2] + 0.2, nz[2]], [nx[2] + 0.8, ny[2] + 1.1, nz[2]], [nx[2] + 1.7, ny[2] + 1.9, nz[2] + 0.5], [nx[3], ny[3], nz[2] + 0.9]]))
+        # wires that come back to a place they have been: a closed loop (last electrode == first), out and back and on
+        wires.append(np.array([[nx[1] + 0.3, ny[1] + 0.2, nz[1] + 0.1], [nx[4] - 0.2, ny[1] + 0.2, nz[1] + 0.1], [nx[4] - 0.2, ny[3] + 0.4, nz[2] + 0.3], [nx[1] + 0.3, ny[1] + 0.2, nz[1] + 0.1]]))
+        wires.append(np.array([[nx[1], ny[1], nz[1]], [nx[3], ny[2], nz[2]], [nx[4], ny[3], nz[1]], [nx[3], ny[2], nz[2]], [nx[2], ny[4], nz[3]]]))
         for w in wires:
             for strength, freq in ((1.0, 1.0), (2.5 - 1j, 0.7), (3.0, -2.0), (1.0, None)):
                 cases += 1
                 src = emg3d.TxElectricWire(w, strength=strength) if len(w) > 2 else emg3d.TxElectricDipole(w, strength=strength)
+                if np.shape(src.points) != np.shape(w) or not np.array_equal(src.points, w):
+                    return dict(reproduced=True, cases=cases, clause='the electrodes of the source are the electrodes given, all of them and in their order',
+                                electrodes=w.tolist(), points=np.asarray(src.points).tolist(), how='contracts.c0910_concrete.check_sources')
                 sf = fields.get_source_field(grid, src, freq)
+                if len(w) > 2 and freq is None:
+                    # superposition: the vector of a wire is the sum of the vectors of its segments
+                    seg = sum(fields._dipole_vector(grid, np.array([a, b])).field for a, b in zip(w[:-1], w[1:]))
+                    if np.abs(sf.field - strength * seg).max() > 1e-9 * max(1.0, np.abs(seg).max()):
+                        return dict(reproduced=True, cases=cases, clause='source vector of a wire is the sum of the source vectors of its segments',
+                                    electrodes=w.tolist(), max_abs_difference=float(np.abs(sf.field - strength * seg).max()), how='contracts.c0910_concrete.check_sources')
                 fac = strength * (-sf.smu0 if freq is not None else 1.0)
                 sums = np.array([sf.fx.sum(), sf.fy.sum(), sf.fz.sum()]) / fac
                 want = w[-1] - w[0]
